@@ -48,6 +48,10 @@ const POOL: &[&str] = &[
     "||x.com^$csp=r=1",
     "||x.com^$csp=r=2",
     "@@||x.com^$csp=r=2",
+    // a NON-exception csp rule without a value: legal (the unit tests parse it), carries no directive
+    // and therefore contributes nothing - in particular it is not a blanket exception
+    "||x.com^$csp",
+    "x.com/p$csp,domain=y.com",
 ];
 
 fn requests() -> Vec<Req> {
